@@ -3,6 +3,7 @@
 -/
 import Driver.Line
 import Model.Path
+import Model.Getters
 
 namespace Jl.Driver.PathCase
 open Jl Jl.Driver Jl.Driver.Line Jl.Value Jl.Path
@@ -87,6 +88,27 @@ def runPath (rowS op pathS valS extS implS : String) : Result :=
         | .panic s => ⟨"D", s!"model panic {s}"⟩
     else ⟨"B", s!"unknown path op {op}"⟩
   | _, _ => ⟨"B", s!"cannot parse row or path: {rowS}"⟩
+
+/-- getter \t C17 \t <row Val> \t <getter> \t K:<key> \t <ext> \t <impl Dyn | panic …>: a typed getter
+    against the model; C17's oracle: no panic, and the result is of the getter's own type (the value or
+    the zero value — absent or unconvertible data never surface any other way). -/
+def runGetter (rowS name keyS extS implS : String) : Result :=
+  let env : Env := ⟨genTables, parseExt extS⟩
+  if implS.startsWith "panic" then ⟨"P", s!"{name}({keyS}) on [{rowS}]: {implS} violates C17: key=panic"⟩ else
+  match rowOf rowS, parseKey keyS, Dyn.parse? implS with
+  | some row, some k, some impl =>
+    match Getters.typedGet env name row k, Getters.table.lookup name with
+    | some m, some (_, ty) =>
+      let p : Option String := if Cast.typeOf impl != ty then some "getter-result-of-another-type" else none
+      match m, p with
+      | _, some c => ⟨"P", s!"{name}({keyS}) on [{rowS}]: impl [{implS}] violates C17: key={c}"⟩
+      | .err .ext, none => ⟨"X", "model abstains"⟩
+      | .ok r, none => if r.show == impl.show then ⟨"S", ""⟩
+          else ⟨"D", s!"{name}({keyS}) on [{rowS}]: impl [{implS}] model [{r.show}]"⟩
+      | .err e, none => ⟨"D", s!"{name}: model error {e.name}"⟩
+      | .panic s, none => ⟨"D", s!"{name}: model panic {s}"⟩
+    | _, _ => ⟨"B", s!"unknown getter {name}"⟩
+  | _, _, _ => ⟨"B", s!"cannot parse getter case: {rowS} / {keyS} / {implS}"⟩
 
 /-- C17 probes: the observation is just "no panic". -/
 def runProbe (what implS : String) : Result :=
